@@ -492,7 +492,7 @@ def run_property(prop, tier, seed, replay=None):
         budget_exhausted=bool(counters.get("budget_skipped", 0)),
     )
     evidence = dict(
-        property_id=prop, tier=tier, seed=int(seed), level="exploration",
+        property_id=prop, tier=tier, seed=int(seed), level=getattr(mod, "LEVEL", "exploration"),
         coverage=coverage,
         assumptions=getattr(mod, "ASSUMPTIONS", [
             "reference geometry in vlib/refgeom.py (self-tested at start of run)",
